@@ -45,7 +45,8 @@ def build(case):
         n = case["n"]
         pos = case["position"]
         depth, x_start = {"inside": (1e-6, 2e-6), "late": (3e-8, 3e-6),
-                          "early": (2e-6, 1e-7)}[pos]
+                          "early": (2e-6, 1e-7),
+                          "incontact": (1.5e-6, -2e-7)}[pos]
         tr = synth.truth_params(mk, E=MODEL_E[mk], contact_point=0.0,
                                 baseline=0.0)
         arr = synth.make_arrays(mk, tr, n_app=n, n_ret=max(50, n // 4),
@@ -206,11 +207,18 @@ def case_fn(case):
     rs = np.random.RandomState(3)
     saved = {c: np.array(idnt[c], copy=True)
              for c in ("force", "fit", "fit residuals")}
+    xcol = idnt.fit_properties.get("x_axis", "tip position")
+    xsaved = np.array(idnt[xcol], copy=True)
     for c in saved:
         a = saved[c].copy()
         a[ret] = rs.normal(0, 1e-9, int(ret.sum()))
         idnt[c] = a
+    xa = xsaved.copy()
+    span = xa.max() - xa.min()
+    xa[ret] = np.linspace(xa.min() - span, xa.max() + span, int(ret.sum()))
+    idnt[xcol] = xa
     pert, _ = feats(idnt)
+    idnt[xcol] = xsaved
     if not np.array_equal(pert, base, equal_nan=True):
         bad = [bnames[i] for i in range(len(base))
                if not (pert[i] == base[i]
@@ -267,7 +275,8 @@ def cases(tier):
     ns = [100, 700, 3000]
     noises = [0.0, 0.01, 0.05]
     for mk, noise, spikes, n, pos in itertools.product(
-            MODEL_E, noises, (0, 3), ns, ("inside", "late", "early")):
+            MODEL_E, noises, (0, 3), ns,
+            ("inside", "late", "early", "incontact")):
         if tier == "quick" and (
                 (mk == "sneddon_spher_approx" and (noise == 0.01 or spikes))
                 or (n == 3000 and noise == 0.01)
